@@ -38,6 +38,7 @@ def tk (typ : Nat) (s : List Nat) : Piece := .tok typ (ascii s)
 def eolP : Piece := tk tEOL [10]
 def commaP : Piece := tk tComma [44]
 def hyphenP : Piece := tk tHyphen [45]
+def semiP : Piece := tk tSemicolon [59]
 
 /-- `string([]rune{r})`: UTF-8, with U+FFFD for surrogates and values above U+10FFFF -/
 def utf8Encode (r : Nat) : List Nat :=
@@ -172,6 +173,21 @@ def plainInt (v : Int) : List Nat :=
   | Int.ofNat n => decimal n
   | Int.negSucc n => 45 :: decimal (n + 1)
 
+/-- one record of a cursive-attachment subtable: `glyph: %d,%d to %d,%d` -/
+def recP (g : Piece) (r : Int × Int × Int × Int) : List Piece :=
+  [g, tk tColon [58], sp, tk tInteger (plainInt r.1), commaP, tk tInteger (plainInt r.2.1),
+    sp, tk tIdentifier kwTo, sp, tk tInteger (plainInt r.2.2.1), commaP, tk tInteger (plainInt r.2.2.2)]
+
+/-- `mark glyph: %d@%d,%d;` -/
+def markP (g : Piece) (r : Nat × Int × Int) : List Piece :=
+  [tk tIdentifier kwMark, sp, g, tk tColon [58], sp, tk tInteger (decimal r.1), tk tAt [64],
+    tk tInteger (plainInt r.2.1), commaP, tk tInteger (plainInt r.2.2), semiP]
+
+/-- `base glyph:{ @%d,%d};` -/
+def baseP (g : Piece) (as : List (Int × Int)) : List Piece :=
+  [tk tIdentifier kwBase, sp, g, tk tColon [58]] ++
+    as.flatMap (fun a => [sp, tk tAt [64], tk tInteger (plainInt a.1), commaP, tk tInteger (plainInt a.2)]) ++ [semiP]
+
 /-- `writeValueRecord` -/
 def writeValueRecord : Option VR → List Piece
   | none => [tk tIdentifier kwUnderscore]
@@ -200,7 +216,6 @@ def Explainer.classList (e : Explainer) (tbl : List (Nat × Nat)) : List Piece :
   | [] => []
   | gg :: more => [sp] ++ e.writeGlyphList gg ++ more.flatMap fun gg' => [commaP, sp] ++ e.writeGlyphList gg'
 
-def semiP : Piece := tk tSemicolon [59]
 
 def Explainer.subtable (e : Explainer) (first : Bool) : Subtable → List Piece
   | .gsub1_1 cov delta =>
@@ -226,10 +241,14 @@ def Explainer.subtable (e : Explainer) (first : Bool) : Subtable → List Piece
         [eolP, tab] ++ ((row.map writePairAdjust).intersperse [commaP, sp]).flatten ++ [semiP]).flatten
 
   | .gpos3_1 cov recs =>
-    (((cov.zip recs).map fun p =>
-      [e.writeGlyph p.1, tk tColon [58], sp, tk tInteger (plainInt p.2.1), commaP, tk tInteger (plainInt p.2.2.1),
-        sp, tk tIdentifier kwTo, sp, tk tInteger (plainInt p.2.2.2.1), commaP, tk tInteger (plainInt p.2.2.2.2)]).zipIdx.map
-      fun q => (if q.2 > 0 then [semiP] else []) ++ (if first || q.2 > 0 then [eolP, tab] else []) ++ q.1).flatten
+    match (cov.zip recs).map (fun p => recP (e.writeGlyph p.1) p.2) with
+    | [] => []
+    | r0 :: rest => (if first then [eolP, tab] else []) ++ r0 ++ rest.flatMap (fun r => [semiP, eolP, tab] ++ r)
+
+  | .gpos4_1 marks bases =>
+    match marks.map (fun r => markP (e.writeGlyph r.1) r.2) ++ bases.map (fun r => baseP (e.writeGlyph r.1) r.2) with
+    | [] => []
+    | r0 :: rest => (if first then [eolP, tab] else []) ++ r0 ++ rest.flatMap (fun r => [eolP, tab] ++ r)
 
 /-- `" ||\n\t"` -/
 def orSep : List Piece := [sp, tk tOr [124, 124], eolP, tab]
